@@ -916,6 +916,7 @@ func (q *qiInst) verify(c int) (string, string) {
 // ---------------------------------------------------------------- replay of one behaviour
 
 type result struct {
+	seen     map[string]int
 	evals    int
 	classes  map[string]bool
 	mism     []Mismatch
@@ -971,7 +972,14 @@ func runQuai(e *env, beh []Rec, bi, inst int, seed int64, res *result) {
 	q.abs["chain"] = beh[0].Chain
 	q.rebuild()
 	fail := func(step int, kind, exp, got, detail string) {
-		res.mism = append(res.mism, Mismatch{bi, inst, seed, step, beh[step].Op, kind, exp, got, detail, beh[:step+1]})
+		key := kind + "|" + exp + "|" + strings.Split(got, ",")[0] + "|" + strings.Split(detail, ":")[0]
+		if kind == "sender" || kind == "pooladd" || kind == "process" {
+			key = kind + "|" + exp + "|" + strings.Split(got, ",")[0]
+		}
+		res.seen[key]++
+		if res.seen[key] <= 3 {
+			res.mism = append(res.mism, Mismatch{bi, inst, seed, step, beh[step].Op, kind, exp, got, detail, beh[:step+1]})
+		}
 	}
 	if m := q.checkIdent(); m != "" {
 		fail(0, "hash-identity", "", "", m)
@@ -1038,8 +1046,8 @@ func runQuai(e *env, beh []Rec, bi, inst int, seed int64, res *result) {
 			}
 			if s.Cls != "bitflip" && q.V.Sign() >= 0 && q.V.BitLen() <= 8 {
 				if crypto.ValidateSignatureValues(byte(q.V.Uint64()), q.R, q.S) {
+					// reported, and the behaviour goes on: a following sender query shows the consequence
 					fail(si, "validate-malformed", "false", "true", "ValidateSignatureValues accepted class "+s.Cls+q.sigVar)
-					return
 				}
 			}
 		case "sender":
@@ -1117,7 +1125,11 @@ func runQi(e *env, beh []Rec, bi, inst int, seed int64, res *result) {
 	r := rand.New(rand.NewSource(seed))
 	q := newQiInst(e, r, beh[0])
 	fail := func(step int, kind, exp, got, detail string) {
-		res.mism = append(res.mism, Mismatch{bi, inst, seed, step, beh[step].Op, kind, exp, got, detail, beh[:step+1]})
+		key := kind + "|" + exp + "|" + got
+		res.seen[key]++
+		if res.seen[key] <= 3 {
+			res.mism = append(res.mism, Mismatch{bi, inst, seed, step, beh[step].Op, kind, exp, got, detail, beh[:step+1]})
+		}
 	}
 	hashes := func() (common.Hash, common.Hash) {
 		tx := q.build()
@@ -1202,7 +1214,7 @@ func cmdReplay(args []string) {
 	inst := fs.Int("inst", 2, "instantiations per behaviour")
 	usePool := fs.Bool("pool", true, "bind pooladd/process to a real core.TxPool")
 	workers := fs.Int("workers", 16, "")
-	maxMis := fs.Int("maxmis", 40, "")
+	maxMis := fs.Int("maxmis", 400, "")
 	prof := fs.String("cpuprofile", "", "")
 	instSeed := fs.Int64("instseed", 0, "replay: run every behaviour exactly once with this instantiation seed")
 	fs.Parse(args)
@@ -1241,7 +1253,7 @@ func cmdReplay(args []string) {
 	var wg sync.WaitGroup
 	for w := 0; w < *workers; w++ {
 		wg.Add(1)
-		results[w] = &result{classes: map[string]bool{}, ops: map[string]int{}, outcomes: map[string]int{}}
+		results[w] = &result{classes: map[string]bool{}, ops: map[string]int{}, outcomes: map[string]int{}, seen: map[string]int{}}
 		go func(w int) {
 			defer wg.Done()
 			res := results[w]
@@ -1253,7 +1265,7 @@ func cmdReplay(args []string) {
 				if len(beh) < 2 || beh[0].Op != "init" {
 					continue
 				}
-				for i := 0; i < *inst && len(res.mism) < *maxMis; i++ {
+				for i := 0; i < *inst; i++ {
 					s := *seed*1_000_003 + int64(bi)*131 + int64(i)
 					if *instSeed != 0 {
 						s = *instSeed
